@@ -161,7 +161,7 @@ PROPS['C19'] = dict(
           'prevents, alters nor duplicates the others), C19_one_row_each, C19_conv_field (the \\N marker is NULL; per-type '
           'conversion incl. BIGINT) and - when present in the audit list - C19_convert (every mapped column of an accepted row holds '
           'the converted field, every unmapped column is NULL) are Lean theorems about the model of colDataTypes / csvToSql / the '
-          'doBatchInsert loop on top of the C08 row codec. Tie: an in-package driver runs the real colDataTypes and doBatchInsert on a '
+          'doBatchInsert loop on top of the C08 row codec. The program around the modelled import loop is exercised, not proved: the driver runs the real main() twice in processes of their own on one table and then starts up as the console does; every record either run accepted must be there once, in input order (csv:program-rows-differ-after-restart; repair 52923f3: csvimport ran no recovery and never closed). Tie: an in-package driver runs the real colDataTypes and doBatchInsert on a '
           'real database; the record stream encoding/csv yields is passed to the model; per-record ok/err events and the final '
           'SELECT * are compared; the judge checks one row per accepted record, order, and independence of bad records.',
     note='Trusted: Lean kernel, hand-written model, encoding/csv (the model starts from its record stream), strconv.Atoi/ParseInt '
@@ -206,7 +206,7 @@ PROPS['C06'] = dict(
           'definition (pairs satisfying ON, plus each unmatched left/right row once padded with NULLs) is defined, the nested-loop '
           'join of the model returns the same header and a permutation of exactly those rows; C06_inner/left/right give the exact '
           'equations in loop order; C06_ambiguous, C06_qualified, C06_alias cover column resolution (ambiguous unqualified names are '
-          'rejected; alias replaces the table name; self-join under two aliases). Tie: join queries as SQL text on real storage over '
+          'rejected; alias replaces the table name; self-join under two aliases). C06_padding_null_in_an_ordering_comparison: <, <=, >, >= with an operand that is NULL - the NULL an outer join padded with included - are false, never an error (repair aa64742), so a chain of outer joins no longer fails as soon as one row has no partner. Tie: join queries as SQL text on real storage over '
           'three tables with duplicate and missing keys, empty sides, self-joins, chains of two joins, AND/OR ON-conditions; exact row '
           'order compared with the model, multiset compared with the relational definition by the judge.',
     note=EXEC_NOTE, assumptions=EXEC_ASSUME,
@@ -223,7 +223,7 @@ PROPS['C07'] = dict(
           'depend on row order), C07_one_row_per_key (one result row per distinct tuple). AVG is a KNOWN FINDING: the code keeps a '
           'cumulative average rounded after every row; the full statement "AVG = round(sum/count), order independent" is false of '
           'code and model (C07_avg_counterexample, replayed on the implementation by corpus/C07/P9), C07_avg_partial is what holds; '
-          'the repair cannot pass the unedited test suite (see KNOWN_FINDINGS.txt). Tie: aggregate queries as SQL text on real '
+          'the repair cannot pass the unedited test suite (see KNOWN_FINDINGS.txt). C07_group_by_without_aggregate: with GROUP BY and no aggregate in the select list the result has exactly one row per distinct grouping key, the first row of each group, in first-occurrence order (repair 16148c5; the reference meaning had copied the early return of the code). AVG is computed in exact integer arithmetic (repair a5d183b), which is what the model runningAvg always assumed. Tie: aggregate queries as SQL text on real '
           'storage with colliding printed forms ((1,11)/(11,1)), GROUP BY by name / qualifier / alias with comma lists, COUNT over '
           'NULL-bearing columns, on top of WHERE and JOIN; the judge recomputes groups, counts and exact averages from the source rows.',
     note=EXEC_NOTE, assumptions=EXEC_ASSUME,
@@ -264,7 +264,7 @@ PROPS['C01'] = dict(lean=['Mkdb.Props.C01'], facts=STORE_FACTS, runs=[dict(cmd='
 PROPS['C02'] = dict(lean=['Mkdb.Props.C02'], facts=STORE_FACTS, runs=[dict(cmd='db', proto='db', args=['c02']), dict(cmd='wal', proto='wal')],
     sig_filter=r'wal:.*|db:(contents-differ:after-recovery|recovery-failed:.*|valid-statement-refused:after-recovery|row-id:after-recovery|row-ids-not-increasing:after-recovery|schema-differs:after-recovery|panic:after-recovery|hang:after-recovery|select-failed:after-recovery)',
     
-    claim='Proof (partial): C02_recovery_reconstructs / C02_recovery_idempotent / C02_clean_shutdown - for every log of page-local records with increasing LSNs, every initial state and EVERY placement of page flushes (each page of the data file is the cached page as of an arbitrary earlier moment), the redo rule of WALBatch.replay (skip a record whose LSN is not newer than the page) reproduces exactly the state the acknowledged statements had built, and replaying again changes nothing; C02_log_roundtrip - the bytes wal.flush appends are read back by wal.read as exactly the records written (byte-level model). C02_concrete_replay_is_the_redo_rule / C02_concrete_recovery_reconstructs: on UPDATE and DELETE records the concrete recovery model (Engine.replayAll, the one compared with the implementation) is proved to be that redo rule page by page, so the schedule theorem is a theorem about it. C02_redo_of_unflushed_inserts: for INSERT statements (tree inserts with splits, root moves, catalog re-pointing) replaying the logged records on the store before them reproduces the live tables, catalog, row-id counter and allocation frontier; C02_recovery_of_a_flushed_database_changes_nothing: already-applied records (page LSN not older, or key present) are skipped or tolerated. C02_acknowledged_statements_survive_an_unflushed_crash (end to end): for any list of INSERT / DELETE / UPDATE statements the plain in-memory model accepts, replaying the log they wrote on the store as it was before them ends in a store that abstracts to the plain database of the live run, with the live row-id counter, allocation frontier and catalog root; C02_mixed_history_is_redone at the storage level. Not covered by a theorem: records that touch several pages (tree inserts that split, catalog re-pointing after a root move, page allocation) and the header counters (row id, LSN) - for those the concrete model Mkdb.Engine.recover (same LSN rule, same tree code as C01) is compared with the implementation. Tie: per case a random DDL/DML history through RelationService with the flush timer replaced by explicit flushes at random points (never / sometimes / always), a crash (cache dropped, files kept) after random statements, the real InitStorage in a child process, optionally a second recovery, then SELECT * of every table, heap dump and further statements; the model must produce the same heap, log and outcomes, the judge compares every table with the in-memory spec of the acknowledged statements and checks row ids stay unique and increasing.',
+    claim='Proof (partial): C02_recovery_reconstructs / C02_recovery_idempotent / C02_clean_shutdown - for every log of page-local records with increasing LSNs, every initial state and EVERY placement of page flushes (each page of the data file is the cached page as of an arbitrary earlier moment), the redo rule of WALBatch.replay (skip a record whose LSN is not newer than the page) reproduces exactly the state the acknowledged statements had built, and replaying again changes nothing; C02_log_roundtrip - the bytes wal.flush appends are read back by wal.read as exactly the records written (byte-level model). C02_concrete_replay_is_the_redo_rule / C02_concrete_recovery_reconstructs: on UPDATE and DELETE records the concrete recovery model (Engine.replayAll, the one compared with the implementation) is proved to be that redo rule page by page, so the schedule theorem is a theorem about it. C02_redo_of_unflushed_inserts: for INSERT statements (tree inserts with splits, root moves, catalog re-pointing) replaying the logged records on the store before them reproduces the live tables, catalog, row-id counter and allocation frontier; C02_recovery_of_a_flushed_database_changes_nothing: already-applied records (page LSN not older, or key present) are skipped or tolerated. C02_acknowledged_statements_survive_an_unflushed_crash (end to end): for any list of INSERT / DELETE / UPDATE statements the plain in-memory model accepts, replaying the log they wrote on the store as it was before them ends in a store that abstracts to the plain database of the live run, with the live row-id counter, allocation frontier and catalog root; C02_mixed_history_is_redone at the storage level. C02_crash_after_a_checkpoint: the same with a log that is never truncated - the start database may carry any records already applied on it and behind its counters, and the WHOLE log is replayed; C02_rounds_keep_the_checkpoint_invariant / C02_rounds_no_recovery_fails: any number of rounds of statements;flush and statements;crash;recovery (Engine.recover: replay, LSN bump, two flushes, any page write orders) from a checkpointed database end in a checkpointed database for the plain database of ALL acknowledged statements, no recovery in such a history fails, and afterwards the whole log is applied (so recovery run again changes nothing); C02_never_reuses_a_row_id: for ANY store, log and placement of flushes (a torn flush included) a replay that runs to its end leaves the row-id counter at least at the key of every logged insert, redone or skipped (the defect repaired in fa35ced). Not covered by a theorem: a crash with pages of the current round flushed and the round containing inserts that split (only UPDATE / DELETE records under arbitrary flush placements, C02_concrete_recovery_reconstructs), CREATE TABLE as a round kind - for those the concrete model Mkdb.Engine.recover (same LSN rule, same tree code as C01) is compared with the implementation. Tie: per case a random DDL/DML history through RelationService with the flush timer replaced by explicit flushes at random points (never / sometimes / always), a crash (cache dropped, files kept) after random statements, the real InitStorage in a child process, optionally a second recovery, then SELECT * of every table, heap dump and further statements; the model must produce the same heap, log and outcomes, the judge compares every table with the in-memory spec of the acknowledged statements and checks row ids stay unique and increasing.',
     note='Trusted: Lean kernel (axioms propext, Classical.choice, Quot.sound only), the hand-written models, the harness and hooks, the OS file system behaving as a byte array per file with fsync making earlier writes durable. Theorems are about the models; the code is covered through the correspondence and the judge, which are bounded.',
     rule='12 (thorough 96) histories of 5-40 statements over up to 4 tables with flush probability in {0,15,40,100}%, crash probability in {10,25,50}% per statement, failing statements mixed in; wal codec: 40 (thorough 320) record lists, every cut position of short logs, random cuts and damaged bytes otherwise. Non-trivial: a history with at least one crash after an unflushed change; distinct by operation text.',
     assumptions=['a crash loses the page cache and nothing else: log records are fsynced before a statement returns (forceSync) and the data file is only written by flushPages', 'InitStorage runs alone (no concurrent session)'],
@@ -305,7 +305,7 @@ PROPS['C03'] = dict(lean=['Mkdb.Props.C03'], facts=STORE_FACTS, runs=[dict(cmd='
     trusted_base=['models Mkdb/Model/Wal.lean, Store.lean, Engine.lean; hooks verifPoint(wal.len|wal.body|wal.sync), VerifWalParseFile'])
 PROPS['C04'] = dict(lean=['Mkdb.Props.C04'], facts=STORE_FACTS, runs=[dict(cmd='db', proto='db', args=['c04'], timeout=3000)],
     sig_filter=r'db:(fimage-.*)',
-    claim='Proof (partial): C04_torn_flush_recovers - the data files a crash inside flushPages can leave are those in which every page is the cached page as of some earlier moment; for every log of page-local records, every such file and every flush history before it, replay reproduces the acknowledged state; C04_log_cut with C04_write_ahead_needed - the write-ahead rule (no page newer than the log) is sufficient and necessary. Not covered: flushes torn between the pages of a split or before the header write that persists the allocation frontier - there the implementation does lose data (KNOWN FINDING db:fimage-(loss|recovery-failed):*:alloc1, see KNOWN_FINDINGS.txt) - and a second crash inside the flush that ends recovery. Tie: for flushes triggered explicitly, by CREATE TABLE and by shutdown, a hook copies data/ immediately before every page write and before the header write, in the page order the Go map iteration produced; each image is recovered by the real InitStorage in a child process and every table is compared with the spec of the acknowledged statements; the model reproduces each torn image from the observed write order and must recover to the same heap.',
+    claim='Proof (partial): C04_torn_flush_recovers - the data files a crash inside flushPages can leave are those in which every page is the cached page as of some earlier moment; for every log of page-local records, every such file and every flush history before it, replay reproduces the acknowledged state; C04_log_cut with C04_write_ahead_needed - the write-ahead rule (no page newer than the log) is sufficient and necessary. Not covered: flushes torn between the pages of a split or before the header write that persists the allocation frontier - there the implementation does lose data (KNOWN FINDING db:fimage-(loss|recovery-failed):*:alloc1, see KNOWN_FINDINGS.txt) - and a second crash inside the flush that ends recovery. The header counters, which the page-level theorem does not speak of, are covered for the row-id counter by C02_never_reuses_a_row_id (any torn flush), and judged on every recovered image (the counter against the largest row id in use: db:fimage-row-id-counter-behind, the defect repaired in fa35ced); statements probed after an image recovery include INSERTs. Tie: for flushes triggered explicitly, by CREATE TABLE and by shutdown, a hook copies data/ immediately before every page write and before the header write, in the page order the Go map iteration produced; each image is recovered by the real InitStorage in a child process and every table is compared with the spec of the acknowledged statements; the model reproduces each torn image from the observed write order and must recover to the same heap.',
     note='Trusted: Lean kernel (axioms propext, Classical.choice, Quot.sound only), the hand-written models, the harness and hooks, the OS file system behaving as a byte array per file with fsync making earlier writes durable. Theorems are about the models; the code is covered through the correspondence and the judge, which are bounded.',
     rule='8 (thorough 64) histories with 2-5 instrumented flushes each, one image per page write and per header write (10-40 images per flush). Non-trivial: an image with at least one but not all pages written; distinct by image operation text. Images are classified by flush kind and by whether pages were allocated since the last header write (alloc0/alloc1).'
          ' [round 2] now 5 (thorough 40) histories; flushes inside recovery are instrumented too (child process leaves an image before each of its page/header writes: the second crash); on every recovered image one more acknowledged statement (DELETE of all rows of a table), a further crash and recovery, and the tables again. Images taken before the first page write are classed apart (":nothing-written"). ',
@@ -321,7 +321,7 @@ PROPS['C16'] = dict(lean=['Mkdb.Props.C16', 'Mkdb.Props.C15'], facts=STORE_FACTS
     trusted_base=['models Mkdb/Model/PageCache.lean, LRU.lean; hook VerifOpenRelation(cacheCap)'], shrink=False)
 PROPS['C17'] = dict(lean=['Mkdb.Props.C17'], facts=['skeleton.engine.Session.*', 'panics.engine.Session.*', 'skeleton.storage.OpenRelation', 'skeleton.storage.CreateDB', 'skeleton.storage.newFileStore', 'skeleton.storage.fileStore.close'],
     runs=[dict(cmd='sess', proto='sess')], sig_filter=r'sess:.*',
-    claim='Proof (partial by nature for the schedule quantifier): C17_frame - every DDL/DML/SELECT/SHOW statement changes at most the selected database, for every session state and statement; C17_no_database_selected; C17_create_existing, C17_use_missing - errors that leave the session exactly as it was (the previously selected database stays selected and open); C17_create_new; C17_use_current - re-selecting the current database changes nothing; C17_use_other - only the previously selected database is touched (closed); C17_names_are_the_created_ones - after any history the databases are exactly those whose CREATE DATABASE returned ok; C17_show - SHOW DATABASES returns a permutation of them. Not covered by a theorem: that closing (flush) and restart (recovery) preserve contents - that is C02/C04 and the correspondence here - and the real flush timer of an abandoned relation service. Tie: random sessions over 2-4 databases through engine.Session.ExecQuery with real pauses longer than the flush interval and restarts (close, InitStorage, new session); outputs and per-database SELECT * are compared with the model, and the judge checks isolation against a per-database in-memory spec.',
+    claim='Proof (partial by nature for the schedule quantifier): C17_frame - every DDL/DML/SELECT/SHOW statement changes at most the selected database, for every session state and statement; C17_no_database_selected; C17_create_existing, C17_use_missing - errors that leave the session exactly as it was (the previously selected database stays selected and open); C17_create_new; C17_use_current - re-selecting the current database changes nothing; C17_use_other - only the previously selected database is touched (closed); C17_names_are_the_created_ones - after any history the databases are exactly those whose CREATE DATABASE returned ok; C17_show - SHOW DATABASES returns a permutation of them. Not covered by a theorem: that closing (flush) and restart (recovery) preserve contents - that is C02/C04 and the correspondence here - and the real flush timer of an abandoned relation service. C17_invalid_name_refused: a name that is not one plain directory name (., .., a path separator or NUL inside, more than 255 bytes) is refused by CREATE DATABASE and USE with an error that changes nothing (repair 6f7783e). Tie: random sessions over 2-4 databases through engine.Session.ExecQuery with real pauses longer than the flush interval and restarts (close, InitStorage, new session); outputs and per-database SELECT * are compared with the model, and the judge checks isolation against a per-database in-memory spec.',
     note='Trusted: Lean kernel (axioms propext, Classical.choice, Quot.sound only), the hand-written models, the harness and hooks, the OS file system behaving as a byte array per file with fsync making earlier writes durable. Theorems are about the models; the code is covered through the correspondence and the judge, which are bounded.',
     rule='sessions of 20-80 statements; CREATE DATABASE / USE (existing, missing, current, mixed case) / SHOW DATABASES interleaved with DDL/DML; pauses of 120-250 ms; 0-3 restarts. Non-trivial: a session that switches databases at least twice with data in both; distinct by session text.'
          ' [round 2] plus 14 scripted sessions: every statement kind after a refused USE / refused CREATE DATABASE, with and without a database selected before. ',
